@@ -26,7 +26,7 @@ META = dict(
     level_text="Random histories (<=8 tasks, <=45 operations, nested operations inside next() and inside whenDone callbacks) and all histories up to a small depth over a 2-task scope are executed on the real Cooperator with a harness-owned scheduler; every next() call, every exception of a task operation and every whenDone/coiterate result is compared with a model of the documented task states; fairness is a bounded-wait check N*(R+2).",
     level_note="Trusted: the state model in this file (written from the docstrings of task.py); Deferred itself. resume() without a matching pause() while the task waits on a Deferred is treated as API misuse and not generated. Paused/waiting tasks are not touched by Cooperator.stop() until they are re-added (mirrors the code; the docstring is silent).",
     design_ref="§5 C11",
-    rule="case = (started, u, task scripts, op list). non-trivial = the executed history contains a pause, resume or stop of a task while it waits on a Deferred it yielded; distinct by the canonical JSON of the case.",
+    rule="case = (started, u, task scripts, op list); script steps yield plain values or Deferreds of six shapes (unfired; already succeeded; already failed; fired but chained on an inner unfired Deferred; pause()d then fired with success / with failure), raise, or end. non-trivial = the executed history contains a pause, resume or stop of a task while it waits on a Deferred it yielded; distinct by the canonical JSON of the case.",
 )
 
 # --------------------------------------------------------------------------
@@ -68,7 +68,8 @@ class _M:
         self.created = False
         self.pc = 0
         self.upause = 0          # user pauses outstanding
-        self.dfr = None          # unfired Deferred the task yielded
+        self.dfr = None          # Deferred the task yielded whose result is not delivered yet
+        self.rel = None          # (kind, inner Deferred, exception): how the harness releases it
         self.comp = None         # None | "done" | "failed" | "stopped" | "cstopped"
         self.exc = None          # exception object for "failed"
         self.late_fail = False   # awaited Deferred failed after the task had finished
@@ -254,7 +255,7 @@ class H:
         try:
             if kind == "v":
                 return ("value", tid, m.pc)
-            if kind in ("d", "ds", "df"):
+            if kind in ("d", "ds", "df", "dc", "dp", "dq"):
                 from twisted.internet.defer import Deferred
                 from twisted.python.failure import Failure
                 d = Deferred()
@@ -262,7 +263,35 @@ class H:
                 if kind == "d":
                     if m.comp is None:
                         m.dfr = d
+                        m.rel = ("d", None, None)
                     self.cls.add("yield-unfired-deferred")
+                elif kind == "dc":
+                    # fired, but its callback chain waits on an inner unfired
+                    # Deferred: .called is True, the result is not delivered yet
+                    inner = Deferred()
+                    d.addCallback(lambda _, inner=inner: inner)
+                    d.callback(None)
+                    if m.comp is None:
+                        m.dfr = d
+                        m.rel = ("dc", inner, None)
+                    else:
+                        inner.callback(None)
+                    self.cls.add("yield-fired-deferred-chained-on-unfired")
+                elif kind in ("dp", "dq"):
+                    # pause()d, then fired (dp: with success, dq: with failure)
+                    d.pause()
+                    e = ScriptError(f"paused deferred of task {tid} step {m.pc}")
+                    if kind == "dp":
+                        d.callback(None)
+                    else:
+                        d.errback(Failure(e))
+                    if m.comp is None:
+                        m.dfr = d
+                        m.rel = (kind, None, e)
+                    else:
+                        d.addErrback(lambda f: None)
+                        d.unpause()
+                    self.cls.add("yield-paused-then-fired-deferred")
                 elif kind == "ds":
                     d.callback(None)
                     self.cls.add("yield-fired-deferred")
@@ -272,7 +301,7 @@ class H:
                         for o in self.m:
                             if o is not m and self.runnable(o):
                                 o.R += 2
-                else:
+                elif kind == "df":
                     e = ScriptError(f"deferred of task {tid} step {m.pc}")
                     d.errback(Failure(e))
                     if m.comp is None:
@@ -280,7 +309,7 @@ class H:
                     else:
                         m.late_fail = True
                     self.cls.add("yield-failed-deferred")
-                if kind != "d" and live:
+                if kind in ("ds", "df") and live:
                     # (a task already finished need not look at what it yields)
                     self.prefired.append((m, d))
                 return d
@@ -510,6 +539,11 @@ class H:
             return
         before = self._runset()
         m.dfr = None
+        rkind, inner, exc0 = m.rel
+        if rkind == "dp":
+            ok = True       # outcome was fixed when it was fired under pause()
+        elif rkind == "dq":
+            ok = False
         late = m.comp is not None
         exc = None
         if ok:
@@ -518,7 +552,7 @@ class H:
                 self.cls.add("resumed-into-stopped-cooperator")
             self.cls.add("fire-ok-late" if late else "fire-ok")
         else:
-            exc = ScriptError(f"awaited deferred of task {m.tid}")
+            exc = exc0 if rkind == "dq" else ScriptError(f"awaited deferred of task {m.tid}")
             if m.comp is None:
                 m.comp, m.exc = "failed", exc
                 self.cls.add("fire-fail")
@@ -528,10 +562,14 @@ class H:
         if self.in_tick:
             self.cls.add("fire-inside-tick")
         self._set_change(before)
-        if ok:
-            d.callback(None)
+        if rkind in ("dp", "dq"):
+            d.unpause()
         else:
-            d.errback(Failure(exc))
+            target = inner if rkind == "dc" else d
+            if ok:
+                target.callback(None)
+            else:
+                target.errback(Failure(exc))
         self._inspect(m, d)
 
     def _inspect(self, m, d):
@@ -605,7 +643,7 @@ class H:
                     # the task whose next() ran last had been completed (stop /
                     # Cooperator.stop) from inside that very next() call
                     sig = ("completed-inside-own-next-then-"
-                           + ("yields-deferred" if cur[1] in ("d", "ds", "df") else "iterator-exits"))
+                           + ("yields-deferred" if cur[1].startswith("d") else "iterator-exits"))
                 else:
                     sig = f"tick-raised:{type(e).__name__}@{found[1]}"
                 self.ctx.violation(sig, self.case, "".join(traceback.format_exception(e))[-2500:])
@@ -722,7 +760,7 @@ _TOP_W = [("tick", 30), ("fire", 14), ("pause", 12), ("resume", 12), ("stop", 8)
           ("whendone", 9), ("add", 5), ("cstop", 2), ("cstart", 3)]
 _NEST_W = [("fire", 14), ("pause", 14), ("resume", 12), ("stop", 12), ("whendone", 6),
            ("add", 5), ("cstop", 2), ("cstart", 2)]
-_KINDS = ["v"] * 8 + ["d"] * 7 + ["ds"] * 2 + ["df"] + ["raise"]
+_KINDS = ["v"] * 8 + ["d"] * 5 + ["dc"] * 2 + ["dp", "dq"] + ["ds"] * 2 + ["df"] + ["raise"]
 
 
 def _table(w):
@@ -786,7 +824,7 @@ _SMALL_ALPHABET = [
 _SMALL_TASKS = [
     [dict(via="cooperate", script=[["d", []], ["v", []]]),
      dict(via="cooperate", script=[["v", []], ["v", []], ["v", []]])],
-    [dict(via="cooperate", script=[["v", []], ["d", [["pause", 1]]], ["raise", []]]),
+    [dict(via="cooperate", script=[["v", []], ["dc", [["pause", 1]]], ["dq", []], ["raise", []]]),
      dict(via="coiterate", script=[["v", []], ["ds", []], ["v", []]])],
 ]
 
